@@ -832,7 +832,7 @@ class OpGen:
                     # the same Rock Ridge path as before (whatever was remembered about it must be gone), or one that is a
                     # byte longer or shorter (its continuation area is the freed one plus or minus one byte)
                     cand = r.choice((old_rr, old_rr, old_rr, old_rr + 'x', old_rr + 'x', old_rr[:-1] or old_rr, old_rr + 'xy'))
-                    if len(cand.encode('utf-8')) <= 250 and m.rr_free(M.split(p)[0], cand):
+                    if len(cand.encode('utf-8')) <= 250 and cand not in ('.', '..') and m.rr_free(M.split(p)[0], cand):
                         rn = cand
                 if rn is None:
                     return None
